@@ -108,6 +108,13 @@ def make(max_packet, buffer_size, epnum):
             clause="the output stream consists of complete payloads, each marked first on its first byte and last on its final "
                    "byte: a byte is marked first exactly when the byte delivered before it was marked last (or it is the very "
                    "first byte) — no packet is truncated, none starts inside another (stated for the k-th delivered byte, k arbitrary)")
+        ens("byte_is_written_iff_its_packet_was_taken", (ts.sig("fifo.write_en") == 1) == store,
+            clause="a packet is dropped as a whole rather than truncated: a byte is written to the buffer iff it belongs to a "
+                   "packet for this endpoint that was taken when its first byte arrived (checked at the FIFO's write port, whose "
+                   "queue behaviour is C18)")
+        ens("fifo_commit_and_discard_follow_the_crc_verdict",
+            z3.And((ts.sig("fifo.write_commit") == 1) == commit_ev, (ts.sig("fifo.write_discard") == 1) == discard_ev),
+            clause="complete payloads of CRC-valid packets are committed, corrupted packets are discarded (FIFO write port)")
         whole = zx(rx.pidx, CW) + 1                                           # length of the packet whose final byte is visible
         ens("packet_kept_whole_or_dropped_whole",
             z3.Implies(closing, c.nx(q.n_p) == z3.If(z3.And(tgt, take), whole, bvc(0, CW))),
